@@ -145,6 +145,91 @@ func c04RunKeys(c *Ctx, opt func() string) {
 	}
 }
 
+// c04IndexNamed: a kind conflict between a list and a container whose member NAMES are list positions — the shape
+// in which a flat source (a properties file, environment variables, `servers.1.port=8080`) spells a list, and the
+// one kind conflict in which the two sides look like two spellings of the same thing.  The property is plain about it:
+// a container and a list under one key are different kinds, so the right side wins as a whole (unless it is null),
+// whatever the names are.  Returns (list, container): the container has 1..len+1 members named by decimal numbers,
+// mostly positions of the list ("0" .. "len-1"), now and then all of them, a position just past the end, a
+// non-canonical spelling ("01", "+1", "-1", "1.0", " 1") or a name that is no number; the values are the list's items
+// after an edit, or fresh nodes.
+func c04IndexNamed(r *rand.Rand, g *DocGen) (W, W) {
+	n := 1 + r.Intn(4)
+	if r.Intn(12) == 0 {
+		n = 10 + r.Intn(3) // two-digit positions
+	}
+	l := make([]any, n)
+	for i := range l {
+		l[i] = g.Node(r, g.MaxDepth-2)
+	}
+	m := map[string]any{}
+	k := 1 + r.Intn(n)
+	if r.Intn(4) == 0 {
+		k = n
+	}
+	for _, i := range r.Perm(n)[:k] {
+		v := g.Node(r, g.MaxDepth-2)
+		switch r.Intn(3) {
+		case 0:
+			v = deepCopyW(l[i])
+		case 1:
+			v = g.Mutate(r, l[i])
+		}
+		m[fmt.Sprint(i)] = v
+	}
+	if r.Intn(3) == 0 {
+		odd := pick(r, []string{fmt.Sprint(n), fmt.Sprint(n + 1), "01", "00", "+1", "-1", "-0", "1.0", " 1", "1 ", "0x1", "1e0", "١", "a", "", "k1"})
+		m[odd] = g.Node(r, g.MaxDepth-2)
+	}
+	return l, map[string]any{"m": m}
+}
+
+// c04IndexNamedPair: two otherwise equal documents with the list on one side and the index-named container on the
+// other at the same position, 1-3 levels down.
+func c04IndexNamedPair(r *rand.Rand, g *DocGen) (W, W) {
+	x, y := c04IndexNamed(r, g)
+	if r.Intn(3) == 0 {
+		x, y = y, x // container on the left, list on the right
+	}
+	return c04Embed(r, g, x, y, 1+r.Intn(3))
+}
+
+// c04RunIndexNamed: the three routes of C04 over list / index-named-container conflicts.
+func c04RunIndexNamed(c *Ctx, opt func() string) {
+	r := c.Rng
+	g := c04Gen()
+	for i := 0; i < c.N(400); i++ {
+		c.Tick()
+		a, b := c04IndexNamedPair(r, g)
+		c.Dist("keys:index-named container opposite a list")
+		if i%4 == 3 {
+			c.Do("pair-frommap", c04Pair{A: a, B: b, Opt: opt()})
+		} else {
+			c.Do("pair", c04Pair{A: a, B: b, Opt: opt(), Seal: r.Intn(4) == 0})
+		}
+	}
+	for i := 0; i < c.N(80); i++ {
+		c.Tick()
+		a, b := c04IndexNamedPair(r, g)
+		ls := []c04Layer{{Name: "L0", Doc: a}, {Name: "L1", Doc: b}}
+		if r.Intn(2) == 0 {
+			ls = append(ls, c04Layer{Name: "L2", Doc: g.Mutate(r, pick(r, []W{a, b}))})
+		}
+		c.Dist("keys:index-named container opposite a list")
+		c.Do("overlay", c04Overlay{Layers: ls, Opt: opt()})
+	}
+	for i := 0; i < c.N(60); i++ {
+		c.Tick()
+		a, b := c04IndexNamedPair(r, g)
+		srcs := []c04Source{{Via: pick(r, c04Vias), Doc: b}}
+		if r.Intn(3) == 0 {
+			srcs = append(srcs, c04Source{Via: pick(r, c04Vias), Doc: g.Mutate(r, b)})
+		}
+		c.Dist("keys:index-named container opposite a list")
+		c.Do("config", c04Config{Defaults: a, Sources: srcs})
+	}
+}
+
 // c04EvalFromMap: the pair law on documents decoded with FromMap (children arrive through the decoder:
 // AddValue / AddContainer / AddList by name; nulls are the decoder's shared nil leaf).
 func c04EvalFromMap(c *Ctx, raw []byte) {
